@@ -128,6 +128,7 @@ fcp_parser = Lark(
     %import common.CPP_COMMENT // imports from terminal library
     %ignore " "           // Disregard spaces in text
     %ignore "\\n"
+    %ignore "\\r"
     %ignore "\\t"
     %ignore COMMENT
     """,
